@@ -9,7 +9,7 @@ the lock hook of the backend shim.
 import sys, _thread, threading, ctypes
 from .core import PRNG, HarnessError
 
-RUNNABLE, BLOCKED, DONE, NEW = 'R', 'B', 'D', 'N'
+RUNNABLE, BLOCKED, DONE, NEW, IDLE = 'R', 'B', 'D', 'N', 'I'
 TOOL_ID = 4
 
 
@@ -64,6 +64,8 @@ class Sched(object):
         self.stick = stick
         self.switches = 0
         self.replay_mismatch = None
+        self.keep_threads = False
+        self.threads = []
         self._pct_points = []
         if strategy == 'pct' and self.replay is None:
             self._pct_points = sorted(rng.below(max(1, est_len)) for _ in range(pct_changes))
@@ -194,12 +196,16 @@ class Sched(object):
             nxt = self._decide(runnable, None)
             self.holder = nxt
             nxt.go.release()
-        elif all(x.status == DONE for x in self.clients):
+        elif all(x.status in (DONE, IDLE) for x in self.clients):
             self._end('done')
         else:
             self.deadlock_info = [(x.id, repr(x.blocked_on)) for x in self.clients
                                   if x.status == BLOCKED]
             self._end('deadlock')
+        if self.keep_threads:
+            # the OS thread (and its thread state) stays until the run is torn down, so that
+            # nothing of CPython's thread exit path runs concurrently with the next holder
+            c.go.acquire()
 
     def run(self, before_start=None):
         """Start all Python clients, schedule until done/deadlock.  Returns verdict."""
@@ -229,10 +235,39 @@ class Sched(object):
         first.go.release()
         self.main_lock.acquire()
         self.active = False
-        if self.verdict == 'done':
+        self.threads = threads
+        if self.verdict == 'done' and not self.keep_threads:
             for t in threads:
                 t.join()
         return self.verdict
+
+    def release_threads(self):
+        """keep_threads mode: let the parked, finished client threads exit (after a 'done' run)"""
+        if self.verdict == 'done' and self.keep_threads:
+            for c in self.clients:
+                if not c.foreign and c.status == DONE:
+                    c.go.release()
+            for t in self.threads:
+                t.join()
+
+    def idle(self, tag='idle'):
+        """the holder (a foreign client) has no command: it hands the baton over and parks"""
+        me = self.holder
+        self.trace.append((me.id, tag))
+        self.steps += 1
+        me.status = IDLE
+        runnable = self._runnable()
+        if not runnable:
+            if all(x.status in (DONE, IDLE) for x in self.clients):
+                self._end('done')
+            else:
+                self.deadlock_info = [(c.id, repr(c.blocked_on)) for c in self.clients
+                                      if c.status == BLOCKED]
+                self._end('deadlock')
+            me.go.acquire()        # released at tear-down, with an EXIT command posted
+            return
+        nxt = self._decide(runnable, None)
+        self._switch(me, nxt)
 
     # After a deadlock / step-cap verdict the parked client threads are left
     # parked (daemon threads): unwinding them would re-enter C code that is
